@@ -1075,6 +1075,22 @@ def main2():
         report["kernels"]["priv_discovery_tick_unlocked(skeleton)"] = {"file": "agent/discovery.c", "oracle_sites": info["oracle_sites"]}
     except Unsupported as e:
         report["errors"].append(f"agent/discovery.c:priv_discovery_tick_unlocked: {e}")
+    try:
+        import extract_ctl
+        d1 = ast_of(os.path.join(REPO, "agent/conncheck.c"), "conn_check_update_selected_pair")
+        g = extract_ctl.translate_guard(d1, "pair->priority", "component->selected_pair.priority", "selected_pair_replaces", Unsupported)
+        d2 = ast_of(os.path.join(REPO, "agent/agent.c"), "agent_candidate_pair_priority")
+        f2 = extract_ctl.translate_pair_priority_dispatch(d2, Unsupported)
+        with open(os.path.join(GEN, "Select.lean"), "w") as f:
+            f.write("/- GENERATED by tools/extract_ctl.py — do not edit.\n"
+                    "   selected_pair_replaces: the guard of agent/conncheck.c conn_check_update_selected_pair\n"
+                    "   (a = pair->priority, b = component->selected_pair.priority);\n"
+                    "   agent_candidate_pair_priority: agent/agent.c, the role-dependent argument order -/\n"
+                    "import Nice.Gen.Kernels\nnamespace Nice.Gen\n\n" + g + "\n\n" + f2 + "\n\nend Nice.Gen\n")
+        report["kernels"]["conn_check_update_selected_pair(guard)"] = {"file": "agent/conncheck.c"}
+        report["kernels"]["agent_candidate_pair_priority"] = {"file": "agent/agent.c"}
+    except Unsupported as e:
+        report["errors"].append(f"selection kernel: {e}")
     out.append("end Nice.Gen\n")
     open(os.path.join(GEN, "Kernels.lean"), "w").write("\n".join(out))
     with open(os.path.join(GEN, "Tables.lean"), "w") as f:
